@@ -157,12 +157,16 @@ bool matches_text_value(const Json& j, const mj::Value& e, bool ordered, std::st
 
 // ---- document-level wire format (JsonValue.tla!Wire): ["null"] ["bool",b] ["int",n] ["str",[cps]]
 //      ["arr",[...]] ["obj",[[keycps,value],...]]
+// ["dec", m, e]: the double nearest to the decimal m * 10^e (correctly rounded by strtod)
+inline double dec_value(const mj::Value& w) { std::string lit = std::to_string((long long)w[1].as_int()) + "e" + std::to_string((long long)w[2].as_int()); return strtod(lit.c_str(), nullptr); }
+inline mj::Value dbl_wire(double d) { mj::Value r = mj::Value::array(); uint64_t b; memcpy(&b, &d, 8); char buf[24]; snprintf(buf, sizeof buf, "%016llx", (unsigned long long)b); r.push("dbl"); r.push(buf); return r; }
 template <class Json>
 Json build_doc(const mj::Value& w) {
     const std::string& k = w[0].str();
     if (k == "null") return Json::null();
     if (k == "bool") return Json(w[1].as_bool());
     if (k == "int") return Json((int64_t)w[1].as_int());
+    if (k == "dec") return Json(dec_value(w));
     if (k == "str") return Json(cps_to_utf8(w[1]));
     if (k == "arr") { Json a(jsoncons::json_array_arg); for (auto& e : w[1].a) a.push_back(build_doc<Json>(e)); return a; }
     if (k == "obj") { Json o(jsoncons::json_object_arg); for (auto& kv : w[1].a) o.insert_or_assign(cps_to_utf8(kv[0]), build_doc<Json>(kv[1])); return o; }
@@ -178,6 +182,7 @@ inline mj::Value canon_doc(const mj::Value& w) {
     if (k == "arr") { mj::Value r = mj::Value::array(); r.push("arr"); mj::Value a = mj::Value::array(); for (auto& e : w[1].a) a.push(canon_doc(e)); r.push(a); return r; }
     if (k == "obj") { mj::Value r = mj::Value::array(); r.push("obj"); mj::Value a = mj::Value::array(); for (auto& kv : w[1].a) { mj::Value p = mj::Value::array(); p.push(kv[0]); p.push(canon_doc(kv[1])); a.push(p); }
         std::stable_sort(a.a.begin(), a.a.end(), key_less); r.push(a); return r; }
+    if (k == "dec") return dbl_wire(dec_value(w));
     return w;
 }
 // library value -> canonical document wire (members sorted by key); anything outside the
@@ -191,6 +196,7 @@ mj::Value doc_wire(const Json& j, bool keep_order = false) {
         case json_type::boolean: r.push("bool"); r.push(j.template as<bool>()); break;
         case json_type::int64: r.push("int"); r.push((int64_t)j.template as<int64_t>()); break;
         case json_type::uint64: { uint64_t u = j.template as<uint64_t>(); if (u <= (uint64_t)INT64_MAX) { r.push("int"); r.push((int64_t)u); } else { r.push("other"); r.push("uint64"); r.push(std::to_string(u)); } break; }
+        case json_type::float64: return dbl_wire(j.template as<double>());
         case json_type::string: if (j.tag() == semantic_tag::none || j.tag() == semantic_tag::noesc) { r.push("str"); r.push(cps_of(j.template as<std::string>())); } else { r.push("other"); r.push("tagged-string"); r.push(j.template as<std::string>()); } break;
         case json_type::array: { r.push("arr"); mj::Value a = mj::Value::array(); for (auto& e : j.array_range()) a.push(doc_wire(e, keep_order)); r.push(a); break; }
         case json_type::object: { r.push("obj"); mj::Value a = mj::Value::array(); for (auto& kv : j.object_range()) { mj::Value p = mj::Value::array(); p.push(cps_of(std::string(kv.key()))); p.push(doc_wire(kv.value(), keep_order)); a.push(p); }
